@@ -286,6 +286,7 @@ def run(ck, fx, cg, tier):
     ck.floor("R1.denote", "templates interpreted", n, 40)
     _literal_payload(ck, T)
     _pipeline(ck, fx)
+    _compose(ck, fx, cg)
     ck.ob("R1.consistency", "one S1 table, two clients", True, "", "compile-side (engine/template.py op_effect) and VM-side (engine/props/c05_vm.py rows) encode the same S1 rows of DESIGN §3.0", nontrivial=False)
 
 
@@ -439,3 +440,29 @@ def _pipeline(ck, fx):
     from . import shared
     n0 = len(ck.obligs)
     shared.result_discipline(ck, fx, b, "R1.pipeline")
+
+
+COMPOSED = ["C02", "C05", "C07", "C09", "C12", "C13", "C14", "C15"]
+
+
+def _compose(ck, fx, cg):
+    """C01 = parser shape (C07) ∘ per-construct translation (C02, C12, C13) ∘ VM conformance (C05, C14) ∘
+    built-ins (C09, C15). A violation of any of these structural obligations changes the output of some
+    program, i.e. violates C01; each sibling rule set is evaluated here as one composed obligation."""
+    import importlib
+    from ..core import Check, load_known
+    known = load_known()
+    for pid in COMPOSED:
+        mod = importlib.import_module("engine.props.%s" % pid.lower())
+        sub = Check(pid, ck.tier, ck.seed)
+        try:
+            mod.run(sub, fx, cg, "quick")
+        except Exception as e:  # noqa
+            ck.ob("R1.compose", pid, False, "", "sibling rule set could not be evaluated: %s: %s" % (type(e).__name__, e))
+            continue
+        bad = [o for o in sub.obligs if not o["ok"] and (pid, "%s|%s" % (o["rule"], o["key"])) not in known]
+        ck.ob("R1.compose", pid, not bad, bad[0]["where"] if bad else "",
+              "%d obligation(s) of %s hold" % (len(sub.obligs), pid) if not bad else
+              "%d obligation(s) of %s are violated, first: %s %s — %s" % (len(bad), pid, bad[0]["rule"], bad[0]["key"], bad[0]["detail"][:200]))
+        for f in sub.functions:
+            ck.fn(f)
